@@ -1,0 +1,75 @@
+//! Verification hooks; compiled only with `--cfg wac_verif`.
+//!
+//! A harness may install a set of gates, one per download task of a registry
+//! resolution: each task waits at its gate before it starts downloading, so the
+//! harness decides the order in which downloads complete. Without an installed
+//! controller the gates are no-ops.
+
+use futures::channel::oneshot;
+use std::sync::{mpsc, Mutex};
+
+struct Controller {
+    gates: Vec<Option<oneshot::Receiver<()>>>,
+    arrivals: mpsc::Sender<usize>,
+}
+
+static CONTROLLER: Mutex<Option<Controller>> = Mutex::new(None);
+
+/// The harness side of an installed set of gates.
+pub struct Gates {
+    senders: Vec<Option<oneshot::Sender<()>>>,
+    /// Receives the index of each task that has reached its gate.
+    pub arrivals: mpsc::Receiver<usize>,
+}
+
+impl Gates {
+    /// Opens the gate of the task with the given index.
+    pub fn open(&mut self, index: usize) {
+        if let Some(tx) = self.senders.get_mut(index).and_then(Option::take) {
+            let _ = tx.send(());
+        }
+    }
+}
+
+/// Installs `count` closed gates (replacing any previous controller).
+pub fn install(count: usize) -> Gates {
+    let (arrivals_tx, arrivals_rx) = mpsc::channel();
+    let mut senders = Vec::with_capacity(count);
+    let mut gates = Vec::with_capacity(count);
+    for _ in 0..count {
+        let (tx, rx) = oneshot::channel();
+        senders.push(Some(tx));
+        gates.push(Some(rx));
+    }
+    *CONTROLLER.lock().unwrap() = Some(Controller {
+        gates,
+        arrivals: arrivals_tx,
+    });
+    Gates {
+        senders,
+        arrivals: arrivals_rx,
+    }
+}
+
+/// Removes the installed controller, if any.
+pub fn uninstall() {
+    *CONTROLLER.lock().unwrap() = None;
+}
+
+/// Called by download task `index` before it starts.
+pub async fn gate(index: usize) {
+    let rx = {
+        let mut guard = CONTROLLER.lock().unwrap();
+        match guard.as_mut() {
+            Some(c) => {
+                let rx = c.gates.get_mut(index).and_then(Option::take);
+                let _ = c.arrivals.send(index);
+                rx
+            }
+            None => None,
+        }
+    };
+    if let Some(rx) = rx {
+        let _ = rx.await;
+    }
+}
